@@ -34,7 +34,9 @@ class _Binary(Operation):
         if result_type is None:
             result_type = lhs.type
         self.width = result_type.width.data if isinstance(result_type, IntegerType) else 64
-        self._init_op([lhs, rhs], [self.sem(lhs.den, rhs.den)], [result_type])
+        # an operand without a denotation (e.g. the result of a CSR read) makes the result unknown
+        d = None if (lhs.den is None or rhs.den is None) else self.sem(lhs.den, rhs.den)
+        self._init_op([lhs, rhs], [d], [result_type])
 
     @property
     def lhs(self):
@@ -148,7 +150,9 @@ class CmpiOp(Operation):
         rhs = SSAValue.get(rhs)
         self.predicate = pred
         p = pred
-        if p == "eq" or p == 0:
+        if lhs.den is None or rhs.den is None:
+            d = None
+        elif p == "eq" or p == 0:
             d = lhs.den == rhs.den
         elif p == "ne" or p == 1:
             d = lhs.den != rhs.den
